@@ -53,3 +53,29 @@ Definition active_established (iss irs peerWnd : Z) (o : synopts) (stackSack : b
   let synack := mkHS irs (u32 (iss + 1)) (Z.lor fSyn fAck) peerWnd 0 o (so_ts o) in
   let '(h, _, err) := hsHandle h0 synack 0 in
   if (err =? 0) && (h_state h =? stCompleted) then Some (transfer h rcvBuf sndBuf routeMtu) else None.
+
+(* passive open (accept.go): createConnectedEndpoint builds the sender from the SYN itself, BEFORE
+   the handshake runs -
+     n.rcvBufSize = int(l.rcvWnd)
+     n.snd = newSender(n, iss, irs, s.window, rcvdSynOpts.MSS, rcvdSynOpts.WS)
+     n.rcv = newReceiver(n, irs, l.rcvWnd, 0)
+   and createEndpointAndPerformHandshake only patches the receive scale afterwards:
+     ep.rcv.rcvWndScale = h.effectiveRcvWndScale()
+   so the send window of an accepted connection is the window field of the SYN (never scaled); the
+   window of the handshake-completing ACK is not transferred. *)
+Definition passive_established (iss irs synWnd : Z) (o : synopts) (stackSack : bool)
+           (lrcvWnd sndBuf routeMtu : Z) : tcp :=
+  let ts := so_ts o in
+  let sack := stackSack && so_sack o in
+  let scale := if so_ws o <? 0 then 0 else findWndScale lrcvWnd in
+  mkTcp (newReceiver irs lrcvWnd scale)
+        (newSender iss irs synWnd (so_mss o) (so_ws o) routeMtu ts sack)
+        [] 0 lrcvWnd false sndBuf 0 false 0 ts [].
+
+(* the fields of a connection state the handshake checks compare (harness/cmd/h_c03 prints the same
+   list from the accepted endpoint's snapshot) *)
+Definition est_summary (t : tcp) : list Z :=
+  [rcvNxt (RC t); rcvAcc (RC t); rcvWndScale (RC t); pendSize (RC t);
+   cwnd (SN t); sndWnd (SN t); sndUna (SN t); sndNxt (SN t); sndNxtList (SN t); tstate (SN t); rto (SN t);
+   maxPayload (SN t); sndWndScale (SN t); maxSentAck (SN t); rttSeq (SN t); frLast (SN t);
+   rcvBufSize t; sndBufSize t; estate t; (if tsOk t then 1 else 0)].
